@@ -295,7 +295,7 @@ func runC03(c *Ctx) {
 		}
 		if res.Final != "complete" {
 			// a run without failures in which the pipestance does not complete has skipped the rest of its jobs
-			r.violate(Violation{Kind: "property", Key: "C03:not-completed:" + normKey(finalClass(res.Final)),
+			r.violate(Violation{Kind: "property", Key: "C03:not-completed:" + classifyRuntimeError(res.Final, res.ErrMsg),
 				What:  "a run in which no job fails did not complete (" + finalClass(res.Final) + "): the remaining stage jobs are never executed; " + firstLine(res.ErrMsg),
 				Input: map[string]interface{}{"program": src, "spec": cs.spec.Name, "seed": cs.spec.Seed, "error": res.ErrMsg, "history": excerpt(res.Events, 200)}})
 		}
